@@ -919,7 +919,7 @@ impl World {
     /// ibc-hooks: native account `from` sends `amt` of the staked asset over `channel` with a
     /// wasm memo calling the contract. Credits the intermediate account and calls the contract
     /// as that account; on failure the packet is refunded on the native chain.
-    pub fn hook_call(&mut self, channel: &str, from: &str, amt: u128, msg: &Value, limited: bool, denom: &str) -> (String, TxOut) {
+    pub fn hook_call(&mut self, channel: &str, from: &str, amt: u128, msg: &Value, limited: bool, denom: &str, tenv: &TxEnv) -> (String, TxOut) {
         let limited = limited && denom == IBC_DENOM;
         let h = hook_account(channel, from, &self.prefix);
         let hname = format!("hook|{}|{}", channel, self.names.nm(from));
@@ -932,7 +932,7 @@ impl World {
             *b -= amt;
         }
         self.credit(&h, denom, amt);
-        let out = self.tx_execute(&h, msg, &[(denom.to_string(), amt)], &TxEnv::default());
+        let out = self.tx_execute(&h, msg, &[(denom.to_string(), amt)], tenv);
         if !out.ok {
             // refund on the native chain
             let _ = self.debit(&h, denom, amt);
